@@ -112,7 +112,11 @@ impl Reg {
         let r = match kind {
             "pair" => self.w.exec(&owner, &self.hub.pool_factory.clone(), &PF::CreatePair {
                 asset_infos: [i[0].clone(), i[1].clone()], pool_fees: pool_fee(dec_atomics(ONE / 1000), dec_atomics(ONE / 500), dec_atomics(0)),
-                pair_type: PairType::ConstantProduct, token_factory_lp: false }, &[]),
+                // constant product, or stableswap with an amplification at or beyond either end of its range - the registry
+                // entry has to say what the child says, amplification included (chosen by the asset names: reproducible)
+                pair_type: match perm.iter().map(|n| n.bytes().map(|b| b as u64).sum::<u64>()).sum::<u64>() % 6 {
+                    0 => PairType::StableSwap { amp: 0 }, 1 => PairType::StableSwap { amp: 1_000_001 }, 2 => PairType::StableSwap { amp: 85 },
+                    _ => PairType::ConstantProduct }, token_factory_lp: false }, &[]),
             "trio" => self.w.exec(&owner, &self.hub.pool_factory.clone(), &PF::CreateTrio {
                 asset_infos: [i[0].clone(), i[1].clone(), i[2].clone()], pool_fees: trio_fee(ONE / 1000, ONE / 500, 0), amp_factor: 100, token_factory_lp: false }, &[]),
             "vault" => self.w.exec(&owner, &self.hub.vault_factory.clone(), &VF::CreateVault { asset_info: i[0].clone(), fees: vault_fee(ONE / 1000, ONE / 1000, 0), token_factory_lp: false }, &[]),
@@ -158,10 +162,10 @@ impl Reg {
                 let e: PairInfo = self.w.query(&self.hub.pool_factory, &PQ::Pair { asset_infos: [i[0].clone(), i[1].clone()] }).ok()?;
                 let child: Result<PairInfo, _> = self.w.query(&Addr::unchecked(e.contract_addr.clone()), &white_whale_std::pool_network::pair::QueryMsg::Pair {});
                 let cj = match child {
-                    Ok(c) => json!({"addr": c.contract_addr, "assets": sorted(&c.asset_infos, &c.asset_decimals), "lp": c.liquidity_token.to_string(), "type": c.pair_type.get_label()}),
+                    Ok(c) => json!({"addr": c.contract_addr, "assets": sorted(&c.asset_infos, &c.asset_decimals), "lp": c.liquidity_token.to_string(), "type": serde_json::to_string(&c.pair_type).unwrap_or_default()}),
                     Err(_) => json!({"addr": "err"}),
                 };
-                Some(json!({"addr": e.contract_addr, "entry": {"addr": e.contract_addr, "assets": sorted(&e.asset_infos, &e.asset_decimals), "lp": e.liquidity_token.to_string(), "type": e.pair_type.get_label()}, "child": cj}))
+                Some(json!({"addr": e.contract_addr, "entry": {"addr": e.contract_addr, "assets": sorted(&e.asset_infos, &e.asset_decimals), "lp": e.liquidity_token.to_string(), "type": serde_json::to_string(&e.pair_type).unwrap_or_default()}, "child": cj}))
             }
             "trio" => {
                 let e: TrioInfo = self.w.query(&self.hub.pool_factory, &PQ::Trio { asset_infos: [i[0].clone(), i[1].clone(), i[2].clone()] }).ok()?;
